@@ -109,7 +109,13 @@ class PossibleMatch:
             self._add_new_open_atoms(open_atoms)
             self._log_prob = np.log(initial_prob)
             self.add_handled_atoms(substructure)
-            self._element_weights[self._active_element] += pattern_mw
+            # Note that end tokens do not increase the molecular weight (for generation purposes)
+            active = self._big.elements[self._active_element]
+            if not (
+                isinstance(active, Stochastic)
+                and str(token) in [str(end_token) for end_token in active.end_tokens]
+            ):
+                self._element_weights[self._active_element] += pattern_mw
 
         # Always pop SmilesToken, but not stochastic elements
         if isinstance(self._big.elements[self._active_element], SmilesToken):
